@@ -39,6 +39,9 @@ Definition d_define : str := [100;101;102;105;110;101].
 Definition d_insert : str := [105;110;115;101;114;116].
 Definition d_replace : str := [114;101;112;108;97;99;101].
 Definition d_block : str := [98;108;111;99;107].
+(* the block test compares the lower-cased tag name WITHOUT a trailing '/' (<t:block/> keeps the slash in its name) *)
+Definition strip_slash (s : str) : str := match rev s with c :: r => if N.eqb c cSLASH then rev r else s | [] => s end.
+Definition block_key (to_lower : rune -> rune) (name : str) : str := strip_slash (map to_lower name).
 Definition cond_names : list str := [d_if; d_else_if; d_elseif; d_elif; d_else].
 Definition is_cond_name (c : str) : bool := existsb (str_eqb c) cond_names.
 
@@ -456,7 +459,7 @@ Fixpoint run_attrs (mask : N) (ctx : list node) (n : node) (attrs : list attr) (
 (* the suppression pre-checks of processTagStart *)
 Definition init_lstate (mask : N) (tok : token) (sc : scope) : lstate :=
   let attrs := t_attrs tok in
-  let np0 := str_eqb (map to_lower (t_name tok)) (m_tag_prefix mgr ++ d_block) in
+  let np0 := str_eqb (block_key to_lower (t_name tok)) (m_tag_prefix mgr ++ d_block) in
   let has := has_dir attrs in
   let sup1 := has d_define || has d_replace in
   let sup2 := existsb has cond_names && N.eqb (N.land mask 1) 0 in
